@@ -18,12 +18,15 @@ type eng struct {
 	cfg     *engine.RockEngConfig
 	e       engine.KVEngine
 	wb      engine.WriteBatch
-	owned   bool // wb came from NewWriteBatch (Destroy it when done)
+	defwb   engine.WriteBatch // DefaultWriteBatch() of the currently open engine
+	owned   bool              // wb came from NewWriteBatch (Destroy it when done)
 	// holdable: an iterator of this engine is a point-in-time view and does
 	// not block this goroutine's own later commits, so it may stay open
 	// across commits. (btree: commit takes the write lock the iterator's
 	// read lock excludes - in production that is blocking, not a behaviour;
-	// skiplist: live view, not selectable in production.)
+	// skiplist: live view, and its C delete spins until no cursor references
+	// the node, so an open cursor deadlocks this goroutine's own commit;
+	// neither variant is selectable in production.)
 	holdable bool
 	dev      devFlags
 	dead     bool // a call panicked: never touch this engine again
@@ -148,7 +151,13 @@ func (s *sim) reopen(en *eng, newObject bool) error {
 		wb := en.wb
 		s.do(en, "wb.Destroy", func() { wb.Destroy() })
 	}
-	en.wb, en.owned = nil, false
+	if en.memType >= 0 && en.defwb != nil {
+		// the mem engine does not own its default batch; drop what it holds
+		// (radix: an open write transaction) before the store goes away
+		wb := en.defwb
+		s.do(en, "wb.Clear", func() { wb.Clear() })
+	}
+	en.wb, en.owned, en.defwb = nil, false, nil
 	var err error
 	if en.memType >= 0 {
 		tmp := path.Join(s.dir, fmt.Sprintf("memck-%s-%d", en.name, s.seq()))
